@@ -172,3 +172,31 @@ for _j2 in range(0, 9):
         group(["C12"], "dfun.small_d_matrix/group_law/2j=%d" % _j2, ["dfun:small_d_matrix"], tiers=_tg, cost=2 + 2 * _j2)(_mk_small_d_group(_j2))
     group(["C12", "C01"] if _j2 <= 3 else ["C12"], "dfun.D_matrix_conj/2j=%d" % _j2, ["dfun:D_matrix_conj", "dfun:exp_i"],
           tiers=("quick", "thorough") if _j2 <= 6 else ("thorough",), cost=2 + 2 * _j2)(_mk_D(_j2))
+
+
+@group(["C12"], "dfun.get_D_matrix_lambda/no_rotation", ["dfun:get_D_matrix_lambda"], env="shim", kind="G",
+       bound="2j = 0..8; helicity lists: full range, restricted (ends only, without 0), reversed and shuffled orders; la and lb chosen independently")
+def d_matrix_lambda_none(ctx):
+    """with angle=None (no rotation) the matrix is the Kronecker delta ON THE HELICITY VALUES, whatever lists are passed"""
+    import numpy as np
+
+    dfun = ctx.mod("dfun")
+    bad = None
+    n = 0
+    for j2 in range(0, 9):
+        j = j2 / 2
+        full = [-j + k for k in range(j2 + 1)]
+        variants = [full, full[::-1], [full[0], full[-1]], [h for h in full if h != 0] or full, full[1:] or full]
+        sh = list(full)
+        ctx.rng.shuffle(sh)
+        variants.append(sh)
+        for la in variants:
+            for lb in variants:
+                n += 1
+                ctx.count(key=(j2, tuple(la), tuple(lb)))
+                got = np.asarray(dfun.get_D_matrix_lambda(None, j, tuple(la), tuple(lb)))
+                want = np.array([[1.0 if a == b else 0.0 for b in lb] for a in la])
+                if got.shape != (1, len(la), len(lb)) or not np.array_equal(got[0], want):
+                    bad = bad or {"2j": j2, "la": la, "lb": lb, "got": np.asarray(got).tolist()}
+    ctx.check("kronecker_delta_on_values", bad is None, clause="get_D_matrix_lambda(None, j, la, lb)[0][i][k] == delta(la[i], lb[k]) for all helicity lists (%d combinations)" % n,
+              detail=str(bad), witness=bad)
